@@ -25,6 +25,8 @@ def main():
         b = enumlib.build("proxylib-enum", "proxy/lib", files("proxylib"))
         res2 = enumlib.run(b, "TestVerifEnumC13Proxy", tier, 60, nshards=4)
         enumlib.report(rep, res2, "…; remoteIPFromSDP over candidate/c= grammars against a reference")
+        res4 = enumlib.run(b, "TestVerifEnumC18ProxyRelayURL", tier, 90, nshards=8)
+        enumlib.report(rep, res4, "…; session sequences through the proxy's real datachannelHandler: the relay URL it dials carries this session's client address or none")
         ring = [s for s in res["samples"] if isinstance(s, dict) and "reachable_states" in s]
         rep.coverage["states"] = max(1, sum(s["reachable_states"] for s in ring))
         rep.coverage["transitions"] = max(1, sum(s["transitions"] for s in ring))
